@@ -195,6 +195,15 @@ func newEnv() (*Env, error) {
 	arena = filepath.Join(arena, fmt.Sprintf("tables-%d", os.Getpid()))
 
 	if st, err := os.Stat("/dev/shm"); err == nil && st.IsDir() && os.Getenv("VERIF_TABLES_ON_DISK") == "" {
+		// directories of earlier runs that were killed before they could clean up
+		if old, err := filepath.Glob("/dev/shm/verif-tables-*"); err == nil {
+			for _, o := range old {
+				if _, err := os.Stat("/proc/" + strings.TrimPrefix(o, "/dev/shm/verif-tables-")); err != nil {
+					_ = os.RemoveAll(o)
+				}
+			}
+		}
+
 		d := fmt.Sprintf("/dev/shm/verif-tables-%d", os.Getpid())
 		if os.MkdirAll(d, 0o700) == nil {
 			arena, cleanupDir = d, d
